@@ -12,9 +12,9 @@ PermSeqs(s) == LET m == Len(s) IN {[j \in 1..m |-> s[f[j]]] : f \in Permutations
 RECURSIVE OrdsFrom(_,_)
 OrdsFrom(c, i) == IF i > c.n THEN {<<>>}
                   ELSE {<<p>> \o r : p \in PermSeqs(c.fi[i]), r \in OrdsFrom(c, i + 1)}
-ParityPair == {c \in G2ok : c.ty[4] \in {"xor","xnor"} /\ c.ty[5] \in {"xor","xnor"}
+ParityPair == {c \in G2ok(0) : c.ty[4] \in {"xor","xnor"} /\ c.ty[5] \in {"xor","xnor"}
                             /\ Len(c.fi[4]) = 3 /\ Len(c.fi[5]) >= 3}
-Fam == NoX(G1) \cup ParityPair
+Fam == NoX(G1(0)) \cup ParityPair
 
 VARIABLES c, ords
 Init == \E x \in Fam : c = x /\ ords \in OrdsFrom(x, 1)
